@@ -22,7 +22,9 @@ def line (s : String) : String :=
   | ["eff", i, p] =>          -- the restart options the state machines get for the options the developer wrote
     match i.toNat?, p.toNat? with
     | some i, some p =>
-      let e := ErgoVerif.SupDefaults.eff ErgoVerif.Gen.SupDefaults.defaultsIndependent
+      -- the RULE (a zero field means its default, independently of the other field) with the regenerated default
+      -- constants: what the harness expects of the implementation, whatever shape the code has
+      let e := ErgoVerif.SupDefaults.eff true
         ErgoVerif.Gen.SupDefaults.defaultIntensity ErgoVerif.Gen.SupDefaults.defaultPeriod i p
       s!"{e.1} {e.2}"
     | _, _ => "bad-op"
